@@ -122,3 +122,82 @@ Example c01_tsig_example :
 Proof. split; [intros rd o m a s n; split; discriminate|]. vm_compute. reflexivity. Qed.
 
 Print Assumptions c01_no_panic_tsig_partial.
+
+(* ---- the SIGNING modes of finish_with_mac (pkg-sproof; Proofs/SignFinishP.v, SignSerP.v, SignTopP.v) ----
+   c01_no_panic_tsig: c01_no_panic_tsig_partial WITHOUT [unverified]: for EVERY verifier - so also for requests whose
+   TSIG verifies (answered NOTIMP / REFUSED / SERVFAIL / FORMERR with a signed TSIG record, or - out of a Loaded zone -
+   by the still abstract [answer]) and for those whose time is outside the fudge window (signed BADTIME response with
+   6 octets of other data) - and for every hmac whose output has the algorithm's output size ([hmac_len], the ONLY fact
+   about HMAC used: Proofs/SignShapeP.v shows that panics and lengths do not depend on the MAC's octets, Proofs/SignLenP.v
+   transfers the theorem from the octet-normalised hmac), the extended composed model returns a response or none,
+   never Panic.  Inside: Writer::set_tsig with reserved_len = signed_len
+   succeeds exactly when the pre-scan reserved; sign_response never panics (message >= 12 octets, ARCOUNT >= 1 because
+   set_tsig counted the record, request MAC <= 65535, RDATA <= 65535); the signed record fits the reservation
+   key name + algorithm name + 26 + MAC size (+ 6 for BADTIME) - finish_signed_ok2. *)
+From QV Require Import Proofs.SignTopP Proofs.SignLenP.
+From QV Require Model.TsigMsg.
+
+Theorem c01_no_panic_tsig : forall hmac zones negttl answer verify cfg buf req,
+  (forall a k d, length (hmac a k d) = TsigMsg.output_size a) ->
+  wf_cfg cfg -> length buf = c_buflen cfg -> (c_now cfg < 281474976710656)%N ->
+  catalog_ok cfg zones -> wf_bytes req ->
+  exists x, handle_message_wt hmac zones negttl answer verify cfg buf req = Ok x.
+Proof.
+  intros hmac zones negttl answer verify cfg buf req Hl Hcfg Hbuf Hnow Hcat Hwf.
+  exact (handle_message_wt_total_len hmac Hl zones negttl answer verify cfg buf Hcfg Hbuf Hnow (fun _ _ => True) req Hcat Hwf).
+Qed.
+
+(* non-vacuity: a constant hmac of the output size meets both hypotheses; a request signed with the installed key
+   "." / hmac-sha256 whose time the verifier finds outside the window gets the SIGNED 97-octet NOTAUTH / BADTIME
+   response (MAC size 32, error 18, other len 6, other data = the server clock); the same request, verified, is
+   answered REFUSED with a signed 91-octet response *)
+Definition c01_ex_hmac (a : TsigMsg.alg) (k d : bytes) : bytes := repeat 90%N (TsigMsg.output_size a).
+Definition c01_ex_sreq : bytes :=
+  ([0;7; 0;0; 0;1; 0;0; 0;0; 0;1;  1;97;0; 0;1; 0;1;
+    0; 0;250; 0;255; 0;0;0;0; 0;61;
+    11;104;109;97;99;45;115;104;97;50;53;54;0;  0;0;101;83;241;0; 1;44; 0;32] ++ repeat 7 32 ++ [0;7; 0;0; 0;0])%N.
+Example c01_signed_example :
+  (forall a k d, length (c01_ex_hmac a k d) = TsigMsg.output_size a) /\ (forall a k d, wf_bytes (c01_ex_hmac a k d)) /\
+  match handle_message_wt c01_ex_hmac (fun _ => None) (fun _ _ => 0%N) (fun _ _ _ _ => empty_body)
+          (fun _ _ _ _ _ _ => VBadTime) (mkConfig Udp 1232 1232 [] [mkKey [] HmacSha256 [1;2;3]%N] 1700000000) (repeat 0%N 1232)
+          c01_ex_sreq with
+  | Ok (Some (ROctets len b)) =>
+    firstn len b = ([0;7; 128;9; 0;1; 0;0; 0;0; 0;1;  1;97;0; 0;1; 0;1;
+                     0; 0;250; 0;255; 0;0;0;0; 0;67;
+                     11;104;109;97;99;45;115;104;97;50;53;54;0;  0;0;101;83;241;0; 1;44; 0;32] ++ repeat 90 32 ++
+                    [0;7; 0;18; 0;6; 0;0;101;83;241;0])%N
+  | _ => False
+  end /\
+  match handle_message_wt c01_ex_hmac (fun _ => None) (fun _ _ => 0%N) (fun _ _ _ _ => empty_body)
+          (fun _ _ _ _ _ _ => VOk) (mkConfig Udp 1232 1232 [] [mkKey [] HmacSha256 [1;2;3]%N] 1700000000) (repeat 0%N 1232)
+          c01_ex_sreq with
+  | Ok (Some (ROctets len b)) => len = 91 /\ nth_error b 3 = Some 5%N
+  | _ => False
+  end.
+Proof.
+  split; [intros a k d; apply repeat_length|]. split.
+  { intros a k d. unfold c01_ex_hmac. apply Forall_forall. intros x Hx. apply repeat_spec in Hx. subst x. unfold is_octet. lia. }
+  split; vm_compute; auto.
+Qed.
+
+Print Assumptions c01_no_panic_tsig.
+
+(* Regression for the arithmetic finish_signed_ok2 pins down (the seeded defect "signed_len forgets the 6 octets of
+   BADTIME other data"): HMAC-SHA256, root key name, no question, BADTIME: the record takes 1 + 10 + 13 + 16 + 32 + 6
+   = 78 octets.  On an 84-octet buffer a state whose reserved_len is 72 (the 6 octets forgotten) makes finish_signed
+   PANIC (add_rr(..).unwrap()); the real set_tsig_signed (reserved_len 78) refuses that buffer instead: Truncation. *)
+Definition c01_ex_alg : MsgWriter.wname := [[104;109;97;99;45;115;104;97;50;53;54]%N].
+Definition c01_ex_time : bytes := [0;0;101;83;241;0]%N.
+Example c01_signed_len_without_other_data_refuted :
+  match MsgWriter.writer_new (repeat 0%N 84) 84 with
+  | Ok w =>
+    is_panic (finish_signed c01_ex_hmac TsigMsg.HmacSha256 [] []
+                (MsgWriter.set_tsig_f (MsgWriter.set_avail (MsgWriter.set_counts w 0 0 0 1) (MsgWriter.w_avail w - 72))
+                   (Some (MsgWriter.mkTsig c01_ex_alg 72 [] c01_ex_time 300 7 18 c01_ex_time)))) = true /\
+    match set_tsig_signed 32 c01_ex_alg [] c01_ex_time 300 7 18 c01_ex_time w with
+    | Err (MsgWriter.Truncation, _) => True
+    | _ => False
+    end
+  | _ => False
+  end.
+Proof. vm_compute. auto. Qed.
